@@ -205,6 +205,7 @@ class FlatView:
 
 def run(ctx):
     ctx.guard("C19.REQ", "requirements are checked", lambda: __import__("initspec").check_requires(ctx, "C19"))
+    ctx.guard("C19.INIT", "init installs the configured state", lambda: __import__("initspec").check_for(ctx, "C19"))
     ctx.guard("C19.K17", "constructor fidelity", lambda: __import__("ctor").check_for(ctx, "C19", 7))
     ctx.guard("C19.R1", "generation", lambda: r1_generation(ctx))
     ctx.guard("C19.R2", "pheromone updates", lambda: r2_updates(ctx))
@@ -273,22 +274,6 @@ def r3_matrix(ctx):
             if got != [c * 0.5 for c in cells]:
                 bad.append(("mul_assign", d, "storage %s becomes %s, expected every entry multiplied once" % (list(cells), got)))
     ctx.check(not bad, "C19.R3", PM, "row-major-square-matrix", "%s on dimension %s: %s" % (bad[0] if bad else ("", "", "")), detail="%d scenarios" % n, loc=fnew.loc())
-    # init installs a fresh matrix of the problem's dimension filled with the configured default
-    adt = GEN + "AcoGeneration"
-    ini = F.method(adt, "init", COMP)
-    dp = F.field_index(adt, "default_pheromones")
-    inserted = []
-
-    def ins(interp, env, f, args):
-        inserted.append(load(interp, env, args[1]))
-        return NONE
-    table = {"mahf::state::registry::StateRegistry::insert": ins, "mahf::problems::VectorProblem::dimension": 3}
-    it = install(Interp(ini.body, chain(mk_oracle(table), coll_oracle, std_oracle), [Sym("self", {dp: 0.75}), Sym("problem"), Sym("state")], facts=F, inline=inl, max_visits=20))
-    it.init_state = {"heap": {}, "next_vec": 0}
-    ps = it.run()
-    good = len(ps) == 1 and ps[0].end == "return" and len(inserted) == 1 and isinstance(inserted[0], Agg) and inserted[0].name == PM and inserted[0].fields[di] == 3 \
-        and isinstance(inserted[0].fields[ii], Vec) and list(ps[0].mstate["heap"].get(inserted[0].fields[ii].vid, ())) == [0.75] * 9
-    ctx.check(good, "C19.R3", ini.key, "init-installs-default-trails", "init does not insert PheromoneMatrix::new(problem.dimension(), self.default_pheromones): %s" % inserted, loc=ini.loc())
     ctx.count("matrix_scenarios", n)
 
 
